@@ -57,7 +57,10 @@ pub mod dist {
     pub fn gen_data_spec(r: &mut Rng) -> Value {
         let f_rows = *r.pick(&[0u64, 1, 40, 40, 120, 120, 300, 300, 700, 700, 90, 2000]);
         let g_rows = *r.pick(&[0u64, 3, 12, 60]);
-        json!({"seed": r.next() >> 12, "f_rows": f_rows, "f_files": 1 + r.below(3), "f_rg": *r.pick(&[5u64, 16, 50, 1000]),
+        // at most ~40 row groups: every row group is a separate split and a separate read in every fragment of every case
+        let mut f_rg = *r.pick(&[5u64, 16, 50, 1000]);
+        while f_rows / f_rg > 40 { f_rg *= 4; }
+        json!({"seed": r.next() >> 12, "f_rows": f_rows, "f_files": 1 + r.below(3), "f_rg": f_rg,
                "g_rows": g_rows, "g_files": 1 + r.below(2), "g_rg": *r.pick(&[4u64, 1000]), "kdom": *r.pick(&[3u64, 8]), "nulls": *r.pick(&[0u64, 10, 50])})
     }
 
